@@ -22,6 +22,9 @@ STRS = ["a", "A", "b", "a b", "a-b", "a.b", "a_b", "1a", "1", "", " a", "é", "+
         "value_1", "Value_0",        # values that spell the positional member names given to values that cannot start an identifier
         'a"b']                       # a double quote: escaped once, inside one literal (other hostile characters are C05's)
 INTS = [-2, -1, 0, 1, 2, 10]
+COLLIDERS = ["m", "M", "a b", "a-b", "a_b", "+a", "a!", "value_2", "2nd"]
+SPECIAL_VALUES = ["\U0001f44d", "x\U0001d400y", "\U00020000", "a\u0301", "\u202eabc", "tab\there", "new\nline", "back\\slash", 'quo"te', "apo'strophe", "\x7f",
+                  "null", "None", "True", "false", " ", "\u00df", "\u0130", "\u01c5", "\ufeffbom", "a\u00a0b", "%s", "{0}", "$x", "\u2028sep"]
 CONSTS = ["k", "", "a b", 0, 3, -1, 1.5, 0.0, True, False]
 
 
@@ -111,6 +114,19 @@ def cases(tier):
                 for ref in (False, True):
                     yield {"labels": [f"values={values!r}", "repeated-value", f"style={style}"] + (["ref"] if ref else []),
                            "payload": {"mode": "enum", "type": typ, "values": list(values), "null": False, "style": style, "ref": ref, "default": "none", "dv": "none"}}
+    # COUNTS: two values whose member names coincide, adjacent or separated by one / two neutral values, in lists of 3 and 4
+    for x, y in itertools.permutations(COLLIDERS, 2):
+        for values in ([x, "zq", y], ["zq", x, y], [x, y, "zq"], [x, "zq", "zr", y], ["zq", x, "zr", y]):
+            for style in ("enum", "literal"):
+                yield {"labels": [f"values={values!r}", "separated-colliders", f"style={style}"],
+                       "payload": {"mode": "enum", "type": "string", "values": list(values), "null": False, "style": style, "ref": False, "default": "none", "dv": "none"}}
+    # values outside the everyday alphabet (astral characters, combining marks, controls, words that are Python / JSON literals), first and last of two
+    for v in SPECIAL_VALUES:
+        for values in ([v, "plain"], ["plain", v], [v]):
+            for style in ("enum", "literal"):
+                for ref in (False, True):
+                    yield {"labels": [f"values={values!r}", "special-value", f"style={style}"] + (["ref"] if ref else []),
+                           "payload": {"mode": "enum", "type": "string", "values": list(values), "null": False, "style": style, "ref": ref, "default": "none", "dv": "none"}}
     yield from _shared_cases()
     # two enums that derive the same class name (a component and an inline enum): reported, or both keep exactly their values
     clash_lists = [["OPEN", "CLOSED"], ["open", "closed"], ["Open", "closed"], ["a", "b"], ["c", "d"], ["a", "b", "c"], ["b", "a"]]
